@@ -36,9 +36,10 @@ type htask struct {
 }
 
 type hshape struct {
-	Name  string   `json:"name"`
-	Tasks []htask  `json:"tasks"`
-	Files []string `json:"files"` // project files the history may create, edit and delete
+	Name  string      `json:"name"`
+	Tasks []htask     `json:"tasks"`
+	Files []string    `json:"files"`           // project files the history may create, edit and delete
+	Links [][2]string `json:"links,omitempty"` // (file, target): the file may also be made a symbolic link to the target
 }
 
 func (s hshape) task(name string) *htask {
@@ -61,6 +62,7 @@ var histShapes = []hshape{
 	{Name: "same-glob-different-literals", Tasks: []htask{{Name: "A", Globs: []string{"*.txt"}, NCmd: 1}, {Name: "B", Lits: []string{"c.cfg"}, Globs: []string{"*.txt"}, NCmd: 1}}, Files: []string{"a.txt", "c.cfg"}},
 	{Name: "file-named-twice", Tasks: []htask{{Name: "A", Lits: []string{"a.txt"}, Globs: []string{"*.txt"}, NCmd: 1}, {Name: "B", Globs: []string{"*.txt", "**/*.txt"}, NCmd: 1}}, Files: []string{"a.txt", "b.txt"}},
 	{Name: "names-differing-in-case", Tasks: []htask{{Name: "A", Lits: []string{"a.txt"}, NCmd: 1}, {Name: "a", Lits: []string{"a.txt"}, NCmd: 1}}, Files: []string{"a.txt"}},
+	{Name: "symlinked-dependency", Tasks: []htask{{Name: "A", Lits: []string{"l.txt"}, NCmd: 1}, {Name: "B", Globs: []string{"*.txt"}, NCmd: 1}}, Files: []string{"a.txt", "l.txt"}, Links: [][2]string{{"l.txt", "a.txt"}}},
 	{Name: "generated-input", Tasks: []htask{{Name: "A", Lits: []string{"a.txt"}, NCmd: 1, Copies: [][2]string{{"a.txt", "g.txt"}}}, {Name: "B", Lits: []string{"g.txt"}, Deps: []string{"A"}, NCmd: 1}}, Files: []string{"a.txt", "g.txt"}},
 	{Name: "chain-of-three", Tasks: []htask{{Name: "A", Lits: []string{"a.txt"}, NCmd: 1}, {Name: "B", Lits: []string{"b.txt"}, Deps: []string{"A"}, NCmd: 1}, {Name: "C", Deps: []string{"B"}, NCmd: 1}}, Files: []string{"a.txt", "b.txt"}},
 }
@@ -214,6 +216,10 @@ func (o hop) String() string {
 		return "delete " + o.File
 	case "rmcache":
 		return "rm -rf .spok"
+	case "rmcachefile":
+		return "rm .spok/cache.json"
+	case "link":
+		return fmt.Sprintf("ln -sf %s %s", o.Value, o.File)
 	case "spokfile":
 		return "edit the spokfile to version " + o.Value
 	}
@@ -238,6 +244,10 @@ func (sb *sandbox) materialise(s hshape, st hstate) {
 	for p, c := range st.Files {
 		full := filepath.Join(sb.Proj, p)
 		_ = os.MkdirAll(filepath.Dir(full), 0o755)
+		if strings.HasPrefix(c, "@->") {
+			_ = os.Symlink(strings.TrimPrefix(c, "@->"), full)
+			continue
+		}
 		_ = os.WriteFile(full, []byte(c), 0o644)
 	}
 	for p, c := range st.Extra {
@@ -285,6 +295,9 @@ func (sb *sandbox) readBack(s hshape, st *hstate) {
 			c := string(b)
 			st.Cache = &c
 		case info.IsDir():
+		case info.Mode()&os.ModeSymlink != 0 && known[rel]:
+			target, _ := os.Readlink(p)
+			st.Files[rel] = "@->" + target
 		case info.Mode().IsRegular() && known[rel]:
 			b, _ := os.ReadFile(p)
 			st.Files[rel] = string(b)
@@ -308,10 +321,25 @@ func (sb *sandbox) readBack(s hshape, st *hstate) {
 
 // snapshot is the reference input set of a task in a file state: the literal
 // dependencies that are regular files plus the reference denotation of each glob.
+// resolve follows symbolic links of the model: what reading the path gives, and whether it can be read.
+func resolve(files map[string]string, p string) (string, bool) {
+	for i := 0; i < 8; i++ {
+		c, ok := files[p]
+		if !ok {
+			return "", false
+		}
+		if !strings.HasPrefix(c, "@->") {
+			return c, true
+		}
+		p = filepath.Join(filepath.Dir(p), strings.TrimPrefix(c, "@->"))
+	}
+	return "", false
+}
+
 func snapshot(t *htask, files map[string]string) string {
 	set := map[string]string{}
 	for _, l := range t.Lits {
-		if c, ok := files[l]; ok {
+		if c, ok := resolve(files, l); ok {
 			set[l] = c
 		}
 	}
@@ -321,12 +349,16 @@ func snapshot(t *htask, files map[string]string) string {
 		withSpokfile[p] = c
 	}
 	for _, g := range t.Globs {
-		for p, c := range withSpokfile {
+		for p := range withSpokfile {
 			if strings.HasPrefix(p, ".") {
 				continue
 			}
 			if ref.Match(g, p) {
-				set[p] = c
+				if c, ok := resolve(withSpokfile, p); ok {
+					set[p] = c
+				} else {
+					set[p] = "<unreadable>" // a dangling link matched by a glob: spok stops with an error
+				}
 			}
 		}
 	}
@@ -337,8 +369,17 @@ func snapshot(t *htask, files map[string]string) string {
 // (spok then stops with an error when it reaches the task).
 func missingLiteral(t *htask, files map[string]string) bool {
 	for _, l := range t.Lits {
-		if _, ok := files[l]; !ok {
+		if _, ok := resolve(files, l); !ok {
 			return true
+		}
+	}
+	for _, g := range t.Globs {
+		for p := range files {
+			if !strings.HasPrefix(p, ".") && ref.Match(g, p) {
+				if _, ok := resolve(files, p); !ok {
+					return true
+				}
+			}
 		}
 	}
 	return false
@@ -648,6 +689,18 @@ func applyEdit(st *hstate, op hop) {
 		st.Files[op.File] = op.Value
 	case "delete":
 		delete(st.Files, op.File)
+	case "link":
+		st.Files[op.File] = "@->" + op.Value
+	case "rmcachefile":
+		// only the cache file goes, the directory stays: the cache has been removed all the same
+		if st.Cache != nil {
+			st.Cache = nil
+			st.Extra[".spok/.gitignore"] = "*\n"
+			st.Extra[".spok/CACHEDIR.TAG"] = "Signature: 8a477f597d28d172789f06886806bc55"
+		}
+		st.Model = map[string]string{}
+		st.LastFail = map[string]string{}
+		st.Forced = map[string]string{}
 	case "rmcache":
 		st.Cache = nil
 		for k := range st.Extra {
@@ -670,7 +723,10 @@ func editOps(s hshape, values []string) []hop {
 		}
 		ops = append(ops, hop{Kind: "delete", File: f})
 	}
-	ops = append(ops, hop{Kind: "rmcache"})
+	ops = append(ops, hop{Kind: "rmcache"}, hop{Kind: "rmcachefile"})
+	for _, l := range s.Links {
+		ops = append(ops, hop{Kind: "link", File: l[0], Value: l[1]})
+	}
 	return ops
 }
 
